@@ -243,7 +243,7 @@ impl RawGen {
             "defmacro" => {
                 let id = self.id();
                 let name = format!("\\xm{}", name_from(id));
-                let pre = ["", "", "\\global", "\\long", "\\outer", "\\global\\long"][rng.below(6)];
+                let pre = ["", "", "\\global", "\\long", "\\outer", "\\global\\long", "\\long\\global", "\\outer\\long\\global"][rng.below(8)];
                 let def = if rng.chance(1, 5) { "\\gdef" } else { "\\def" };
                 let pre = if def == "\\gdef" && pre.contains("global") { "" } else { pre };
                 let (params, body, kind) = match rng.below(10) {
